@@ -6,6 +6,7 @@ def run(ctx, rep):
     runloop.r07a(ctx, rep)
     runloop.r07h(ctx, rep)
     runloop.r07i(ctx, rep)
+    runloop.r07j(ctx, rep)
     runloop.r07b(ctx, rep)
     runloop.r07e(ctx, rep)
     runloop.r07f(ctx, rep)
